@@ -27,6 +27,7 @@ DECLINED = ["that user-defined schedulers honour ABT_sched_has_to_stop / keep po
             "numeric value of the counter over histories (only per-path balance and ordering)"]
 ASSUMPTIONS = ["C02/C11: each switch primitive runs exactly the callback it passes"]
 RULES_DOC = dict(common.SHARED_DOC)
+RULES_DOC["X9"] = common.X9_DOC
 RULES_DOC["X8"] = common.X8_DOC
 RULES_DOC["X7"] = common.X7_DOC
 RULES_DOC["R9"] = c06_refs.DOC
@@ -679,6 +680,7 @@ def rule_R7_R8(P, rep):
 
 
 def run(P, rep, tier):
+    common.rule_X9(P, rep, fields=[('ABTI_pool', 'num_blocked'), ('ABTI_pool', 'num_scheds'), ('ABTI_sched', 'request')])
     common.rule_X8(P, rep)
     common.rule_X7(P, rep, records=('ABTI_sched', 'ABTI_pool'))
     common.rule_X4(P, rep)
